@@ -29,6 +29,13 @@ def loads(string, fmt="kvn"):
 
 def dumps(data, **kwargs):
 
+    if not isinstance(data, MeasureSet):
+        # list of MeasureSet, as given by loads() for a TDM of several segments
+        merged = MeasureSet()
+        for measure_set in data:
+            merged.extend([measure_set] if not isinstance(measure_set, MeasureSet) else measure_set)
+        data = merged
+
     fmt = get_format(**kwargs)
 
     if fmt == "kvn":
